@@ -1,12 +1,12 @@
 #!/usr/bin/env python3
-"""Regenerates lean/Driver/Main.lean (imports every Driver/C*.lean, concatenates their `suites`)
-and lean/Dawgs.lean (imports every Dawgs/Props/*.lean). Run after adding a suite or a Props file."""
-import glob, os, re
+"""Regenerates lean/Driver/Main.lean + lean/Driver/MainG.lean (import every Driver/C*.lean and concatenate
+their `suites`), lean/suites.json (suite name -> executable) and lean/Dawgs.lean (imports every
+Dawgs/Props/*.lean). A driver file containing the marker comment `-- uses-generated` depends on tables
+regenerated from /repo (lean/Dawgs/Generated) and goes into the second executable `dawgsmodelg`, so a
+broken extractor cannot take the core drivers down. Run after adding a suite or a Props file."""
+import glob, json, os, re
 ROOT = os.path.join(os.path.dirname(os.path.dirname(os.path.abspath(__file__))), "lean")
-drivers = sorted(os.path.basename(f)[:-5] for f in glob.glob(os.path.join(ROOT, "Driver", "C*.lean")))
-src = "import Driver.Proto\n" + "".join("import Driver.%s\n" % d for d in drivers)
-src += "\ndef suites : List (String × Driver.Suite) :=\n  " + " ++\n  ".join("Driver.%s.suites" % d for d in drivers) + "\n"
-src += '''
+MAIN = '''
 def main (args : List String) : IO UInt32 := do
   match args with
   | [name] =>
@@ -17,7 +17,26 @@ def main (args : List String) : IO UInt32 := do
     | none => IO.eprintln s!"unknown suite {name}"; return 2
   | _ => IO.eprintln "usage: dawgsmodel <suite> < ops"; return 2
 '''
-open(os.path.join(ROOT, "Driver", "Main.lean"), "w").write(src)
+core, gen, table = [], [], {}
+for f in sorted(glob.glob(os.path.join(ROOT, "Driver", "C*.lean"))):
+    name = os.path.basename(f)[:-5]
+    txt = open(f).read()
+    isgen = "-- uses-generated" in txt
+    (gen if isgen else core).append(name)
+    m = re.search(r"def Driver\.%s\.suites[^\n]*:=(.*?)(?:\n\n|\Z)" % re.escape(name), txt, re.S)
+    for s in re.findall(r'\("([A-Za-z0-9_]+)"\s*,', m.group(1) if m else ""):
+        table[s] = "dawgsmodelg" if isgen else "dawgsmodel"
+
+
+def write_main(fname, drivers):
+    src = "import Driver.Proto\n" + "".join("import Driver.%s\n" % d for d in drivers)
+    src += "\ndef suites : List (String × Driver.Suite) :=\n  " + (" ++\n  ".join("Driver.%s.suites" % d for d in drivers) or "[]") + "\n" + MAIN
+    open(os.path.join(ROOT, "Driver", fname), "w").write(src)
+
+
+write_main("Main.lean", core)
+write_main("MainG.lean", gen)
+json.dump(table, open(os.path.join(ROOT, "suites.json"), "w"), indent=1, sort_keys=True)
 props = sorted(os.path.basename(f)[:-5] for f in glob.glob(os.path.join(ROOT, "Dawgs", "Props", "*.lean")))
 open(os.path.join(ROOT, "Dawgs.lean"), "w").write("".join("import Dawgs.Props.%s\n" % p for p in props))
-print("Main.lean:", drivers, "Dawgs.lean:", props)
+print("Main.lean:", core, "MainG.lean:", gen, "Dawgs.lean:", props)
